@@ -236,6 +236,12 @@ class AppMutator(BaseMutator):
         ChangeFields), and then looks in each batch for any changes to fields
         that become unnecessary (due to field deletion).
         """
+        # Optimizing rewrites mutations (renaming fields and models, merging
+        # attributes). Work on copies, so the caller's mutations (usually the
+        # ones defined in the evolution modules, which may be processed more
+        # than once) are left as they were written.
+        mutations = copy.deepcopy(mutations)
+
         mutation_batches = self._create_mutation_batches(mutations)
 
         # Go through all the mutation batches and get our resulting set of
